@@ -920,8 +920,12 @@ class Program:
         xs = lst(xs, 'slicing')
         if sl.step is not None:
             raise Unspecified('slice step')
-        lo = 0 if sl.lower is None else as_int(self.expr(sl.lower, env, C), 'slice bound', 'TypeError')
-        hi = len(xs) if sl.upper is None else as_int(self.expr(sl.upper, env, C), 'slice bound', 'TypeError')
+        # the documented `slice(xs, start, stop)` takes the bounds as arguments: both are evaluated
+        # before either is examined
+        lo_v = None if sl.lower is None else self.expr(sl.lower, env, C)
+        hi_v = None if sl.upper is None else self.expr(sl.upper, env, C)
+        lo = 0 if lo_v is None else as_int(lo_v, 'slice bound', 'TypeError')
+        hi = len(xs) if hi_v is None else as_int(hi_v, 'slice bound', 'TypeError')
         if not 0 <= lo <= hi <= len(xs):
             raise Stuck('slice bounds', 'IndexError')
         return [xs[i] for i in range(lo, hi)]
